@@ -213,6 +213,9 @@ struct ilut {
         return ilu->bytes();
     }
 
+#ifdef AMGCL_VERIF
+    friend struct ::amgcl::verif::access;
+#endif
     private:
         typedef typename backend::builtin<value_type, col_type, ptr_type>::matrix build_matrix;
         std::shared_ptr<ilu_solve> ilu;
